@@ -107,4 +107,13 @@ CHECKS = {
              "checks": ["c02-wire-order", "c02-handler-order"]},
         ],
     },
+    "C03": {
+        "level": "exploration",
+        "stall_violation": True,
+        "groups": [
+            {"name": "c03", "run": "^TestC03_", "shards": {"quick": 16, "thorough": 16},
+             "timeout": {"quick": 900, "thorough": 3000},
+             "checks": ["c03-acks", "c03-raw-peer"]},
+        ],
+    },
 }
